@@ -11,10 +11,12 @@ reg(Prop(
          '(T = int, unsigned char, a 24-byte trivial struct) starting from one of 7 constructors, or on a buffer<T>, or one '
          '(length,count) pair for io::read_chars. After every step the real container is compared with a shadow std::vector '
          '(size, contents through every accessor, returned iterator offsets, capacity >= size); at the end of every history the '
-         'allocator ledger must be balanced. Positions/counts are always valid for the current size; aliasing arguments refer '
+         'allocator ledger must be balanced. In one step of eight the ledger allocator fails the first or second allocation (std::bad_alloc): '
+         'the vector must then be what it was before the call (for a single-pass input range: the elements inserted before the failure stay, as '
+         'in std::vector); likewise buffer::resize_write_area. read_from/read_from_opt (all sizes 0..12 x written 0..size) and dynamic_array (sizes 0..40) are judged too. Positions/counts are always valid for the current size; aliasing arguments refer '
          'to elements before/at/after the position. distinct = hash of the full operation history text.',
     assumptions=COMMON_ASSUMPTIONS + [
         'side conditions as for std::vector: valid positions, inserted ranges do not alias the vector, pop_back needs size > 0, a moved-from vector is only assigned to, queried for size and destroyed',
         'std::vector is the reference for contents and iterator offsets'],
-    exhaustive_spaces=['io::read_chars: all (stream length 0..9, count 0..length+2)'],
+    exhaustive_spaces=['io::read_chars: all (stream length 0..9, count 0..length+2)', 'buffer::read_from/read_from_opt: all (size 0..12, written 0..size)'],
 ))
